@@ -138,6 +138,10 @@ pub trait Obj: Any {
 }
 
 // --------------------------------------------------------------------------- iterators
+/// size_hint as "H<lo>;<hi>" ("inf" for no upper bound): compared with the number of remaining elements
+fn hint(h: (usize, Option<usize>)) -> String {
+    format!("H{};{}", h.0, h.1.map(|x| x.to_string()).unwrap_or_else(|| "inf".into()))
+}
 pub fn run_iter_de<I>(mut it: I, ops: &str) -> String
 where
     I: DoubleEndedIterator + ExactSizeIterator,
@@ -149,6 +153,13 @@ where
             'n' => so(it.next()),
             'b' => so(it.next_back()),
             'l' => format!("V{}", it.len()),
+            'h' => hint(it.size_hint()),
+            'k' => so(it.nth(1)),
+            'j' => so(it.nth(7)),
+            'K' => so(it.nth(usize::MAX)),
+            'r' => so(it.nth_back(1)),
+            'q' => so(it.nth_back(7)),
+            'R' => so(it.nth_back(usize::MAX)),
             _ => "X".into(),
         }));
     }
@@ -163,6 +174,10 @@ where
         out.push(guard(|| match ch {
             'n' => so(it.next().map(f)),
             'l' => format!("V{}", it.len()),
+            'h' => hint(it.size_hint()),
+            'k' => so(it.nth(1).map(f)),
+            'j' => so(it.nth(7).map(f)),
+            'K' => so(it.nth(usize::MAX).map(f)),
             _ => "X".into(),
         }));
     }
@@ -176,6 +191,10 @@ where
     for ch in ops.chars() {
         out.push(guard(|| match ch {
             'n' => so(it.next().map(f)),
+            'h' => hint(it.size_hint()),
+            'k' => so(it.nth(1).map(f)),
+            'j' => so(it.nth(7).map(f)),
+            'K' => so(it.nth(usize::MAX).map(f)),
             _ => "X".into(),
         }));
     }
@@ -560,6 +579,9 @@ macro_rules! qv_build {
                                 for &x in v[pos..end].iter() { let s: u8 = num_traits::AsPrimitive::<u8>::as_(x); b.push(s); }
                             } else if tok.starts_with('e') {
                                 b.extend(v[pos..end].iter().copied());
+                            } else if tok.starts_with('c') && pos == 0 {
+                                // the builder itself collected from an iterator (FromIterator for QVectorBuilder)
+                                b = v[pos..end].iter().copied().collect::<QVectorBuilder>();
                             } else { return None; }
                             pos = end;
                         }
@@ -573,6 +595,47 @@ macro_rules! qv_build {
             _ => None,
         }
     };
+}
+
+// ------------------------------------------------------------------- user-side containers of structures
+pub enum AggObj<T> {
+    B(Box<[T]>),
+    V(Vec<T>),
+}
+impl<T: SpaceUsage + Clone + 'static> Obj for AggObj<T> {
+    fn q(&self, _op: &str, _a: &[u128]) -> String {
+        "X".into()
+    }
+    fn ser(&self) -> Vec<u8> {
+        Vec::new()
+    }
+    fn roundtrip(&self) -> Option<Box<dyn Obj>> {
+        None
+    }
+    fn clone_obj(&self) -> Box<dyn Obj> {
+        match self {
+            AggObj::B(b) => Box::new(AggObj::B(b.clone())),
+            AggObj::V(v) => Box::new(AggObj::V(v.clone())),
+        }
+    }
+    fn eq_obj(&self, _o: &dyn Obj) -> Option<bool> {
+        None
+    }
+    fn space(&self) -> (usize, f64, f64, f64) {
+        match self {
+            AggObj::B(b) => (b.space_usage_byte(), b.space_usage_KiB(), b.space_usage_MiB(), b.space_usage_GiB()),
+            AggObj::V(_) => (0, 0.0, 0.0, 0.0),   // Vec<T>: SpaceUsage only for T: Copy in the crate
+        }
+    }
+    fn inline_size(&self) -> usize {
+        match self {
+            AggObj::B(_) => std::mem::size_of::<Box<[T]>>(),
+            AggObj::V(_) => std::mem::size_of::<Vec<T>>(),
+        }
+    }
+    fn as_any(&self) -> &dyn Any {
+        self
+    }
 }
 
 // ------------------------------------------------------------------- RSQVector
@@ -1176,6 +1239,32 @@ impl State {
 
     fn build(&self, kind: &str, elem: &str, path: &str, rest: &[&str]) -> Result<(Box<dyn Obj>, isize), String> {
         match kind {
+            // NEW aggbox|aggvec <bv|rsw|rsn|rsq256|qv> new <k> n1 .. nk : a user-side Box<[T]> / Vec<T> of k structures of
+            // different sizes (the generic SpaceUsage impls of the crate report on it)
+            "aggbox" => {
+                let sizes: Vec<usize> = rest[1..].iter().filter_map(|x| x.parse().ok()).collect();
+                let boxed = kind == "aggbox";
+                let mut seed = 0x9E3779B97F4A7C15u64 ^ (sizes.len() as u64);
+                let mut bit = move || { seed ^= seed << 13; seed ^= seed >> 7; seed ^= seed << 17; seed & 1 == 1 };
+                macro_rules! agg {
+                    ($t:ty, $mk:expr) => {{
+                        let before = live();
+                        let mut v: Vec<$t> = Vec::new();
+                        for &n in sizes.iter() { v.push($mk(n)); }
+                        let a = if boxed { AggObj::B(v.into_boxed_slice()) } else { AggObj::V(v) };
+                        let h = live() - before;
+                        Ok((Box::new(a) as Box<dyn Obj>, h))
+                    }};
+                }
+                match elem {
+                    "bv" => agg!(BitVector, |n: usize| (0..n).map(|_| bit()).collect::<BitVector>()),
+                    "rsw" => agg!(RSWide, |n: usize| RSWide::new((0..n).map(|_| bit()).collect::<BitVector>())),
+                    "rsn" => agg!(RSNarrow, |n: usize| RSNarrow::new((0..n).map(|_| bit()).collect::<BitVector>())),
+                    "qv" => agg!(QVector, |n: usize| (0..n).map(|_| (bit() as u8) * 2 + bit() as u8).collect::<QVector>()),
+                    "rsq256" => agg!(RSQVector256, |n: usize| (0..n).map(|_| (bit() as u8) * 2 + bit() as u8).collect::<RSQVector256>()),
+                    _ => Err("X".into()),
+                }
+            }
             "rsn" | "rsw" | "darray0" | "darray1" | "bv" | "bvm" => {
                 // rest: <nbits> <bitstring|->   or for pos paths: <n> p1 .. pn
                 if path.starts_with("pos") {
